@@ -43,7 +43,8 @@ def task(W, payload):
         pts = [LATTICE[i] for i in idxs]
         n = len(pts)
         ys = [Fr(r.randint(-8, 8), 2) for _ in range(n + 1)]
-        style = r.choice(["array", "list_params", "graphobj"])
+        style = r.choice(["array", "list_params", "list_mixed", "list_numbers", "graphobj"])
+        mask_seed = r.random()
         params = {}
         def mk_points(vals, prefix):
             if style == "array":
@@ -55,6 +56,16 @@ def task(W, payload):
                         params[f"{prefix}{i}"] = float(v); lst.append(Parameter(f"{prefix}{i}"))
                     else:
                         lst.append(float(v))
+                return lst
+            if style in ("list_mixed", "list_numbers"):
+                # Python ints where the value is integral, floats otherwise; parameters at random positions (none for list_numbers)
+                rr = random.Random(f"{mask_seed}:{prefix}")
+                lst = []
+                for i, v in enumerate(vals):
+                    if style == "list_mixed" and rr.random() < 0.5:
+                        params[f"{prefix}{i}"] = float(v); lst.append(Parameter(f"{prefix}{i}"))
+                    else:
+                        lst.append(int(v) if v.denominator == 1 else float(v))
                 return lst
             return Data(jnp.array([float(v) for v in vals]))
         bump(out, "points:" + style)
